@@ -277,6 +277,16 @@ def l2_case(draw):
     return {"lang": lang, "files": list(files), "override": override}
 
 
+GROUP_MEMBER_VALUES = {
+    "variable_array_type_include": ['"my/vec.hpp"', '"cetl/variable_length_array.hpp"', "<vector>"],
+    "variable_array_type_template": ["my::vec<{TYPE}>", "std::vector<{TYPE}>"],
+    "variable_array_type_constructor_args": ["{MAX_SIZE}", ""],
+    "allocator_include": ['"my/alloc.hpp"', "<memory>"],
+    "allocator_type": ["my::alloc", "std::allocator"],
+    "allocator_is_default_constructible": [True, False],
+    "ctor_convention": ["uses-trailing-allocator", "uses-leading-allocator"],
+}
+
 # the group of options the C++ shorthands are DOCUMENTED to set (docs/languages.rst, "c++17-pmr.yaml" / "cetl++14-17.yaml")
 DOCUMENTED_GROUP = [
     "variable_array_type_include",
@@ -655,12 +665,27 @@ def run(ctx: core.Ctx):
     env = L2Env()
     try:
         core.explore(ctx, l2_case(), lambda c: check_l2(ctx, c, env), 500 if q else 8000, seed_offset=2)
+        # directed sweep: each shorthand given explicitly over ONE file that sets ONE member of its documented group to a value
+        # other than the shorthand's own (every member x every shorthand, builder and CLI level)
+        for std in ("c++17-pmr", "cetl++14-17"):
+            for k, vals in sorted(GROUP_MEMBER_VALUES.items()):
+                for v in vals:
+                    f = {"options": {k: v}}
+                    for sig, what in check_l2(ctx, {"lang": "cpp", "files": [f], "override": {"options": {"std": std}}}, env):
+                        ctx.fail(sig, what, {"lang": "cpp", "files": [f], "override": {"options": {"std": std}}})
+                    flags = {"target_endianness": None, "omit_float_serialization_support": False, "enable_serialization_asserts": False,
+                             "enable_override_variable_array_capacity": False, "std": std, "extension": None, "stem": None}
+                    c3 = {"lang": "cpp", "files": [f], "flags": flags, "subprocess": False, "repeat_first": False}
+                    for sig, what in check_l3(ctx, c3, env):
+                        ctx.fail(sig, what, c3)
+                    ctx.event("directed.shorthand-over-one-group-member")
         core.explore(ctx, l2_case(), lambda c: check_template_view(ctx, c, env), 40 if q else 600, seed_offset=3)
         core.explore(ctx, l3_case(), lambda c: check_l3(ctx, c, env), 150 if q else 3000, seed_offset=4)
     finally:
         env.close()
     run_histories(ctx, 25 if q else 300, 6)
     ctx.require("l2.shorthand", 20)
+    ctx.require("directed.shorthand-over-one-group-member", 28)
     ctx.require("l1.map_vs_leaf_conflict", 100)
     ctx.require("hist", 10)
 
